@@ -582,7 +582,7 @@ PROBES = [
 
 def run(ctx):
     rng = ctx.rng
-    want = ctx.scale(5200, 120000)
+    want = ctx.scale(3000, 100000)
     cases, segs_of, seen = [], {}, set()
     discarded = {}
     dist = {"constructs": {}, "ops": {}, "stats": {}, "observations": 0}
@@ -664,29 +664,27 @@ def run(ctx):
             except TooBig:
                 exprs.append("false")
             meta.append((c, a1, a2, o1, o2, r if "results" not in r else None))
-    _t0 = _t.time()
-    bad, errs = core.coq_eval_bools(ctx.prop, IMPORTS, exprs, chunk=400)
-    dist["seconds_coq"] = round(_t.time() - _t0, 1)
-    tie_breaks = [{"kind": "coq-eval", "what": "model evaluation shard failed", "detail": t} for _, t in errs]
-    failures = []
     # ---- sensitivity: on how many of a sample of the cases would a model with another trailing condition be told apart
-    #      (cond_always must never be: trailing more than necessary is harmless)
-    sample = [(c, segs_of[c["id"]]) for c in cases[:ctx.scale(350, 3000)]]
-    mexprs = []
-    MUT = ["wrong_cond", "cond_never", "cond_always", "cond_le"]
+    #      (cond_always must never be: trailing more than necessary is harmless); evaluated in the same coqc shards
+    sample = [(c, segs_of[c["id"]]) for c in cases[:(3000 if ctx.thorough else 120)]]
+    MUT = ["wrong_cond", "cond_never", "cond_always"]
+    ncase = len(exprs)
     for mu in MUT:
         for c, sg in sample:
-            mexprs.append("mutant_same_p %s %s" % (mu, pack(case_header(c, sg))))
+            exprs.append("mutant_same_p %s %s" % (mu, pack(case_header(c, sg))))
+    chunk = min(600, max(200, -(-len(exprs) // max(1, core.NPROC))))
     _t0 = _t.time()
-    mbad, merrs = core.coq_eval_bools(ctx.prop, IMPORTS, mexprs, chunk=350, tag="mutants")
-    dist["seconds_mutants"] = round(_t.time() - _t0, 1)
+    allbad, errs = core.coq_eval_bools(ctx.prop, IMPORTS, exprs, chunk=chunk)
+    dist["seconds_coq"] = round(_t.time() - _t0, 1)
+    bad = [i for i in allbad if i < ncase]
     sens = {mu: 0 for mu in MUT}
-    for i in mbad:
-        sens[MUT[i // len(sample)]] += 1
+    for i in allbad:
+        if i >= ncase:
+            sens[MUT[(i - ncase) // len(sample)]] += 1
     dist["mutant_models_detected"] = {"sample": len(sample), "addr<hb-1": sens["wrong_cond"], "never_trail": sens["cond_never"],
-                                      "always_trail(harmless)": sens["cond_always"], "addr<=hb(harmless)": sens["cond_le"]}
-    if merrs:
-        tie_breaks.append({"kind": "coq-eval", "what": "mutant sensitivity shard failed", "detail": merrs[0][1]})
+                                      "always_trail(harmless)": sens["cond_always"]}
+    tie_breaks = [{"kind": "coq-eval", "what": "model evaluation shard failed", "detail": t} for _, t in errs]
+    failures = []
     for i in bad[:12]:
         c, a1, a2, o1, o2, rec = meta[i]
         segs = segs_of[c["id"]]
